@@ -24,7 +24,7 @@ variable {σ : Type}
 theorem genapi_refines_warm (o : Ops σ) (dev : Nat → Nat → R Bytes) (h : Stateless o dev)
     (st : St σ) (table : Nat) (hc : st.manifest = some table) :
     ∃ st', genapi o st = (fetchFrom o dev table, st') := by
-  obtain ⟨st', hs⟩ := Always.genapiFrom h table st
+  obtain ⟨st', hs, _⟩ := Always.genapiFrom h.on table st trivial
   refine ⟨st', ?_⟩
   show M.bind (manifestTable o) (genapiFrom o) st = _
   simp only [M.bind, manifestTable_warm o st table hc, hs]
@@ -35,12 +35,12 @@ theorem genapi_refines_cold (o : Ops σ) (dev : Nat → Nat → R Bytes) (h : St
     ∃ st', genapi o st =
       (readRegP dev 0 ABRM_MANIFEST_TABLE_ADDRESS 8 >>= fetchFrom o dev, st') := by
   -- from a cold cache `manifestTable` is `readReg` + `setManifest`
-  obtain ⟨st1, h1⟩ := Always.readReg h 0 ABRM_MANIFEST_TABLE_ADDRESS 8 st
+  obtain ⟨st1, h1, _⟩ := Always.readReg h.on 0 ABRM_MANIFEST_TABLE_ADDRESS 8 st trivial
   show ∃ st', M.bind (manifestTable o) (genapiFrom o) st = _
   cases hr : readRegP dev 0 ABRM_MANIFEST_TABLE_ADDRESS 8 with
   | ok a =>
     rw [hr] at h1
-    obtain ⟨st', hs⟩ := Always.genapiFrom h a { st1 with manifest := some a }
+    obtain ⟨st', hs, _⟩ := Always.genapiFrom h.on a { st1 with manifest := some a } trivial
     exact ⟨st', by simp only [M.bind, manifestTable_cold_ok o st st1 a hc h1, hs]; rfl⟩
   | err e =>
     rw [hr] at h1
@@ -282,6 +282,118 @@ theorem total (o : Ops σ) (h : ∀ a n s, (o.read a n s).1 ≠ .panic) (st : St
     (genapi o st).1 ≠ .panic :=
   NeverPanics.genapi h st
 
+/-! ## 4. Histories: the device content may change between calls on one handle -/
+
+/-- `view s` = what the device in state `s` answers to `read(addr, len)` (its current image);
+a read returns exactly that and does not change it (other parts of the device state may move). -/
+def Serves (o : Ops σ) (view : σ → Nat → Nat → R Bytes) : Prop :=
+  ∀ a n s, (o.read a n s).1 = view s a n ∧ view (o.read a n s).2 = view s
+
+/-- One call of `genapi` as a pure function of the ONLY thing the handle caches for it — the
+manifest table address (`ControlHandle::manifest_table`; `None` = not yet read) — and the image
+the device shows during the call.  Nothing else enters: in particular no manifest entry, version,
+file address, size or hash of an earlier call. -/
+def genapiPure (o : Ops σ) (cache : Option Nat) (img : Nat → Nat → R Bytes) : R Bytes :=
+  match cache with
+  | some table => fetchFrom o img table
+  | none => readRegP img 0 ABRM_MANIFEST_TABLE_ADDRESS 8 >>= fetchFrom o img
+
+/-- the cache after the call: filled by the first successful read of ABRM `0x1D0`, never updated -/
+def cacheAfter (cache : Option Nat) (img : Nat → Nat → R Bytes) : Option Nat :=
+  match cache with
+  | some table => some table
+  | none => match readRegP img 0 ABRM_MANIFEST_TABLE_ADDRESS 8 with
+    | .ok table => some table
+    | _ => none
+
+/-- **one call, any cache state, any current image**: result, cache update, image untouched -/
+theorem genapi_call (o : Ops σ) (view : σ → Nat → Nat → R Bytes) (h : Serves o view) (st : St σ) :
+    (genapi o st).1 = genapiPure o st.manifest (view st.dev) ∧
+    (genapi o st).2.manifest = cacheAfter st.manifest (view st.dev) ∧
+    view (genapi o st).2.dev = view st.dev := by
+  -- while the call runs the device shows `view st.dev` and the cache holds `c`
+  have hS : ∀ c, StatelessOn (fun st' : St σ => view st'.dev = view st.dev ∧ st'.manifest = c) o (view st.dev) := by
+    intro c a n st' hP
+    refine ⟨(o.read a n st'.dev).2, ?_, ?_, hP.2⟩
+    · rw [← hP.1, ← (h a n st'.dev).1]
+    · exact ((h a n st'.dev).2).trans hP.1
+  cases hc : st.manifest with
+  | some table =>
+    obtain ⟨st', hs, hP⟩ := Always.genapiFrom (hS (some table)) table st ⟨rfl, hc⟩
+    have hg : genapi o st = (fetchFrom o (view st.dev) table, st') := by
+      show M.bind (manifestTable o) (genapiFrom o) st = _
+      simp only [M.bind, manifestTable_warm o st table hc, hs]
+    rw [hg]
+    exact ⟨rfl, hP.2, hP.1⟩
+  | none =>
+    obtain ⟨st1, h1, hP1⟩ := Always.readReg (hS none) 0 ABRM_MANIFEST_TABLE_ADDRESS 8 st ⟨rfl, hc⟩
+    cases hr : readRegP (view st.dev) 0 ABRM_MANIFEST_TABLE_ADDRESS 8 with
+    | ok a =>
+      rw [hr] at h1
+      obtain ⟨st', hs, hP⟩ := Always.genapiFrom (hS (some a)) a { st1 with manifest := some a } ⟨hP1.1, rfl⟩
+      have hg : genapi o st = (fetchFrom o (view st.dev) a, st') := by
+        show M.bind (manifestTable o) (genapiFrom o) st = _
+        simp only [M.bind, manifestTable_cold_ok o st st1 a hc h1, hs]
+      rw [hg]
+      refine ⟨?_, ?_, hP.1⟩
+      · simp only [genapiPure, hr, Res.bind_ok]
+      · simp only [cacheAfter, hr]; exact hP.2
+    | err e =>
+      rw [hr] at h1
+      have hg : genapi o st = (.err e, st1) := by
+        show M.bind (manifestTable o) (genapiFrom o) st = _
+        simp only [M.bind, manifestTable_cold_err o st st1 e hc h1]
+      rw [hg]
+      refine ⟨?_, ?_, hP1.1⟩
+      · simp only [genapiPure, hr]; rfl
+      · simp only [cacheAfter, hr]; exact hP1.2
+    | panic =>
+      rw [hr] at h1
+      have hg : genapi o st = (.panic, st1) := by
+        show M.bind (manifestTable o) (genapiFrom o) st = _
+        simp only [M.bind, manifestTable_cold_panic o st st1 hc h1]
+      rw [hg]
+      refine ⟨?_, ?_, hP1.1⟩
+      · simp only [genapiPure, hr]; rfl
+      · simp only [cacheAfter, hr]; exact hP1.2
+
+/-- A history on ONE handle: before the k-th call the device changes on its own (`g_k`: firmware
+update, another manifest, other files …), then `genapi` is called.  Recorded: the device state the
+k-th call starts from and its result. -/
+def trace (o : Ops σ) : List (σ → σ) → St σ → List (σ × R Bytes)
+  | [], _ => []
+  | g :: gs, st =>
+    (g st.dev, (genapi o { st with dev := g st.dev }).1) ::
+      trace o gs (genapi o { st with dev := g st.dev }).2
+
+/-- **genapi_reflects_current_table**: for every history of device changes and calls on one
+handle, provided the one register whose value the handle caches for `genapi` — the manifest
+table address, ABRM `0x1D0` — reads `T` in every device state (and the cache is empty or holds
+`T`): the k-th call returns `fetchFrom` — the pure selection / retrieval function — applied to the
+image the device shows at the k-th call.  Nothing about the entry choice, the versions, the file
+location, size, hash or content is carried over from earlier calls.  (`abrm`/`sbrm` caches of the
+handle are not used by `genapi`.) -/
+theorem genapi_reflects_current_table (o : Ops σ) (view : σ → Nat → Nat → R Bytes) (h : Serves o view)
+    (T : Nat) (hT : ∀ s, readRegP (view s) 0 ABRM_MANIFEST_TABLE_ADDRESS 8 = .ok T)
+    (gs : List (σ → σ)) (st : St σ) (hc : st.manifest = none ∨ st.manifest = some T) :
+    ∀ x ∈ trace o gs st, x.2 = fetchFrom o (view x.1) T := by
+  induction gs generalizing st with
+  | nil => intro x hx; simp [trace] at hx
+  | cons g gs ih =>
+    obtain ⟨h1, h2, _⟩ := genapi_call o view h { st with dev := g st.dev }
+    simp only at h1 h2
+    have hres : (genapi o { st with dev := g st.dev }).1 = fetchFrom o (view (g st.dev)) T := by
+      rw [h1]
+      rcases hc with hc | hc <;> simp [genapiPure, hc, hT]
+    have hcache : (genapi o { st with dev := g st.dev }).2.manifest = some T := by
+      rw [h2]
+      rcases hc with hc | hc <;> simp [cacheAfter, hc, hT]
+    intro x hx
+    simp only [trace, List.mem_cons] at hx
+    rcases hx with rfl | hx
+    · exact hres
+    · exact ih _ (Or.inr hcache) x hx
+
 /-! ## Non-vacuity: a concrete device with four entries (buffer XML 9.0.0; device XML 1.0.255,
 1.0.256 plain with hash, 1.0.256 again zipped) — the first 1.0.256 entry is returned; toy
 external functions. -/
@@ -341,5 +453,33 @@ example : fetchFrom exOps (devOfRegions [(0x1000, toLE 8 1 ++ exEntry 0x01000000
     .err .invalidDevice := by decide +kernel
 example : fetchFrom exOps (devOfRegions [(0x1000, toLE 8 2 ++ exEntry 0x01000000 0 0x5000 4 [])]) 0x1000 =
     .err .io := by decide +kernel
+
+/-- `genapi_reflects_current_table`: a device with two images behind the same manifest table
+address — `exDev`, and `exDev2` whose table got a newer device-XML entry (2.0.0, the file at
+0x6000) appended by a firmware update.  The hypotheses hold and a history that flips between the
+images returns the newest document of the CURRENT image each time. -/
+def exDev2 : Nat → Nat → R Bytes := devOfRegions
+  [(0x1D0, toLE 8 0x1000),
+   (0x1000, toLE 8 5 ++
+      exEntry 0x09000000 1 0x5000 4 (List.replicate 20 0) ++
+      exEntry 0x010000ff 0 0x6000 4 (List.replicate 20 0) ++
+      exEntry 0x01000100 0 0x5000 4 (exSha1 exFile) ++
+      exEntry 0x01000100 (1 * 2 ^ 10) 0x7000 4 (List.replicate 20 0) ++
+      exEntry 0x02000000 0 0x6000 4 (exSha1 exOld)),
+   (0x5000, exFile), (0x6000, exOld), (0x7000, exZip)]
+
+def exView (updated : Bool) : Nat → Nat → R Bytes := if updated then exDev2 else exDev
+
+def exOpsB : Ops Bool :=
+  { read := fun a n s => (exView s a n, s)
+    sha1 := exSha1
+    unzip := fun b => if b = exZip then some [some exOld] else none
+    lossy := id }
+
+example : Serves exOpsB exView := fun _ _ _ => ⟨rfl, rfl⟩
+example : ∀ s, readRegP (exView s) 0 ABRM_MANIFEST_TABLE_ADDRESS 8 = .ok 0x1000 := by
+  intro s; cases s <;> decide +kernel
+example : trace exOpsB [fun _ => false, fun _ => true, fun _ => false] ⟨false, none⟩ =
+    [(false, .ok exFile), (true, .ok exOld), (false, .ok exFile)] := by decide +kernel
 
 end CamVerif.C14
